@@ -629,9 +629,43 @@ def array_leaves(model):
     return [a for a in jax.tree_util.tree_leaves(model) if eqx.is_array(a)]
 
 
+def _prelude_train(world, pt):
+    """History before the run under test: the *same* model with a *different* freeze plan (mostly:
+    nothing frozen) is trained briefly in the same process and dropped. Exposes state keyed on the
+    outer structure of a model (caches of partition specs, of conditioner constructors, ...)."""
+    import jax.random as jr
+
+    plain = _share_static(world["model"], zoo.build(world["model"]))
+    alt, _ = apply_freeze(plain, pt.get("freeze", []), keep_some=True)
+    shape, _cd = zoo.model_dims(world["model"])
+    opt = inner_optimizer("adamw", 1e-3)
+    loss = get_loss(world, shape).inner
+    key = jr.PRNGKey(int(pt.get("seed", 0)))
+    if world["loop"] == "data":
+        from flowjax.train import fit_to_data
+
+        w2 = dict(world)
+        w2["data"] = {k: v for k, v in world["data"].items() if k != "fault_rows"}
+        x, cond, _fr = make_data(w2, plain)
+        fit_to_data(key, alt, x, condition=cond, loss_fn=loss, optimizer=opt, max_epochs=1, batch_size=world["batch_size"],
+                    val_prop=world["val_prop"], show_progress=False)
+    else:
+        from flowjax.train import fit_to_variational_target
+
+        fit_to_variational_target(key, alt, loss, steps=2, optimizer=opt, show_progress=False)
+
+
 def run_world(world):
     import jax
     import jax.random as jr
+
+    prelude_note = None
+    if world.get("prelude_train"):
+        try:
+            _prelude_train(world, world["prelude_train"])
+            prelude_note = "ok"
+        except Exception as e:  # noqa: BLE001 - history, not the run under test
+            prelude_note = f"{type(e).__name__}: {str(e)[:120]}"
 
     for pre in world.get("prelude", []):
         # history before the model under test exists: other models built (and dropped) in the same
@@ -640,6 +674,12 @@ def run_world(world):
             zoo.build(pre)
         except Exception:  # noqa: BLE001
             pass
+    hist = world.get("history") or {}
+    hist_done = []
+    if hist.get("pre"):
+        from sim import history_ops
+
+        hist_done += [("pre",) + t for t in history_ops.run_history(hist["pre"])]
     model_plain, model0, applied = build_world_model(world)
     shape, cond_dim = zoo.model_dims(world["model"])
     opt = observing_optimizer(world["opt"], world["lr"])
@@ -682,6 +722,14 @@ def run_world(world):
             pass
     raw = list(_LOG)
     _LOG.clear()
+    rejections = None
+    if hist:
+        from sim import history_ops
+
+        if hist.get("post"):
+            hist_done += [("post",) + t for t in history_ops.run_history(hist["post"])]
+        # after all of that history: invalid constructor arguments must still be rejected
+        rejections = history_ops.run_panel(hist.get("panel", []))
     steps, loss_events = [], []
     history = []  # ordered: ("L", i) / ("U", i)
     for ev in raw:
@@ -708,6 +756,9 @@ def run_world(world):
         "fault_rows_seen": sum(1 for e in loss_events if e["has_fault_row"]),
         "exception": exception,
         "n_loss_events": len(loss_events),
+        "history_done": hist_done,
+        "rejections": rejections,
+        "prelude_train": prelude_note,
     }
 
 
@@ -753,6 +804,9 @@ def result_digest(result):
                 h.update(np.ascontiguousarray(np.asarray(leaf)).tobytes())
     h.update(repr(result["losses"]).encode())
     h.update(repr(result["exception"]).encode())
+    if result.get("rejections") is not None:
+        h.update(repr(sorted(result["rejections"].items())).encode())
+        h.update(repr(result.get("history_done")).encode())
     return h.hexdigest()
 
 
@@ -767,4 +821,6 @@ def sample_view(world, result, probes, mode):
         "losses": result["losses"],
         "exception": result["exception"],
         "probes": probes,
+        "history_done": result.get("history_done"),
+        "rejections": result.get("rejections"),
     }
